@@ -4,7 +4,7 @@
 set -u
 cd "$(dirname "$0")"
 export GOFLAGS=-mod=mod GOPROXY=off GOSUMDB=off GOTOOLCHAIN=local GOGC=200
-export VERIF_DIR="$(pwd)"
+export VERIF_DIR="${VERIF_DIR_OVERRIDE:-$(pwd)}"
 mkdir -p .build
 cp -f /repo/go.sum ./go.sum 2>/dev/null || true
 if ! go build -tags verif -o .build/mc ./cmd/mc 2> .build/build.err; then
